@@ -819,7 +819,13 @@ where
                     Ok(Some(Ev::Scalar { value, style, .. }))
                         if scalar_is_nullish(value, style) =>
                     {
-                        let _ = self.src.next();
+                        // Skip the empty document, but do not lose a deferred reader error that
+                        // surfaces when the event is taken.
+                        if let Err(e) = self.src.next() {
+                            self.finished = true;
+                            let _ = self.src.finish();
+                            return Some(Err(e));
+                        }
                         continue;
                     }
                     Ok(Some(_)) => {
@@ -1193,7 +1199,13 @@ where
                     Ok(Some(Ev::Scalar { value, style, .. }))
                         if scalar_is_nullish(value, style) =>
                     {
-                        let _ = self.src.next();
+                        // Skip the empty document, but do not lose a deferred reader error that
+                        // surfaces when the event is taken.
+                        if let Err(e) = self.src.next() {
+                            self.finished = true;
+                            let _ = self.src.finish();
+                            return Some(Err(e));
+                        }
                         continue;
                     }
                     Ok(Some(_)) => {
@@ -1921,7 +1933,13 @@ where
                     Ok(Some(Ev::Scalar { value, style, .. }))
                         if scalar_is_nullish(value, style) =>
                     {
-                        let _ = self.src.next();
+                        // Skip the empty document, but do not lose a deferred reader error that
+                        // surfaces when the event is taken.
+                        if let Err(e) = self.src.next() {
+                            self.finished = true;
+                            let _ = self.src.finish();
+                            return Some(Err(e));
+                        }
                         continue;
                     }
                     Ok(Some(_)) => {
